@@ -281,6 +281,19 @@ CONTROLS = {
     'C19': ['seeded/C19-a/patch.diff'],
 }
 
+# negative controls (thorough tier): behaviour-preserving refactorings; the property's quick check must stay silent on each of them.
+NEGATIVE = {
+    'C01': ['selftest/negative/N1-zip-loop-core_verify.patch'],
+    'C02': ['selftest/negative/N1-zip-loop-core_verify.patch', 'selftest/negative/N2-helper-domain-input.patch'],
+    'C04': ['selftest/negative/N4-reorder-rename-proof_verify_init.patch'],
+    'C06': ['selftest/negative/N3-get-okor-match-commitment.patch'],
+    'C08': ['selftest/negative/N3-get-okor-match-commitment.patch', 'selftest/negative/N4-reorder-rename-proof_verify_init.patch'],
+    'C09': ['selftest/negative/N3-get-okor-match-commitment.patch'],
+    'C10': ['selftest/negative/N2-helper-domain-input.patch'],
+    'C16': ['selftest/negative/N5-C16-helper-correct-rounding.patch'],
+    'C18': ['selftest/negative/N6-C18-helper-correct-bits.patch'],
+}
+
 # rules that are also evaluated on the other production configurations in the thorough tier (guards against feature-gated divergence)
 def thorough_extra(pid):
     R = []
@@ -307,7 +320,9 @@ if __name__ == '__main__':
         print('property %s has no registered rules' % a.pid)
         sys.exit(2)
     controls = []
+    negatives = []
     if a.tier == 'thorough':
         rules = rules + thorough_extra(a.pid)
         controls = CONTROLS.get(a.pid, [])
-    sys.exit(run_property(a.pid, a.tier, rules, meta, controls=controls))
+        negatives = NEGATIVE.get(a.pid, [])
+    sys.exit(run_property(a.pid, a.tier, rules, meta, controls=controls, negatives=negatives))
